@@ -725,6 +725,9 @@ pub fn gen_history_with(seed: u64, focus: &str, thorough: bool, forced: Option<V
                         _ => unreachable!(),
                     }
                 };
+                // the automatic tree count grows with the dimension (up to ~dim trees): on large runs that is
+                // hundreds of MB of tree nodes per transaction; keep those runs affordable
+                let n_trees = if big && dim > 33 && n_trees.is_none() { Some(1 + r.below(8) as usize) } else { n_trees };
                 let mem = if scripted == Some(2) {
                     Some(match r.below(3) {
                         0 => 0,
@@ -777,7 +780,7 @@ pub fn gen_history_with(seed: u64, focus: &str, thorough: bool, forced: Option<V
         cfg: Cfg {
             indexes,
             data_seed: r.next(),
-            map_size: 256 << 20,
+            map_size: 4usize << 30,
             pool,
             sched: r.pick(&["random", "random", "pct", "starve"]).to_string(),
             sched_seed: r.next(),
